@@ -9,7 +9,7 @@
     Proofs: Runner/LockDiscipline.v.  Not modelled: scheduler fairness, real time. *)
 From Coq Require Import Arith Bool List.
 From CanVerif Require Import Runner.Lts Runner.RunModel Runner.LockDiscipline Runner.Protocol Runner.RunLts Runner.RunProofs.
-From CanVerif Require Import Runner.Program Runner.ProgramProofs.
+From CanVerif Require Import Runner.Program Runner.ProgramProofs Runner.ProgramLts Runner.ProgramLtsProofs.
 Import ListNotations.
 
 (** I1: in every reachable state the mutex owner is exactly the thread inside a critical section *)
@@ -222,4 +222,55 @@ Example C13_action_programs_nonvacuous :
   first_lock_violation [mkNode CLock [] [1]; mkNode CUnlock [] [2]; mkNode CMsg [] [3]; mkNode CRet [] []] = Some 2 /\
   cls_at receiver_prog 8 = Some CMsg /\ cls_at receiver_prog 12 = Some CHook /\
   first_diff receiver_prog receiver_prog = None /\ first_diff receiver_prog (removelast receiver_prog) = Some 18.
+Proof. vm_compute. repeat split. Qed.
+
+(** REFINEMENT of the receiver's action program by the LTS (Runner/ProgramLts.v).  [rx_next t c o b] = the step thread t takes
+    from the local configuration c = (pc, ok = outcome recorded last, hook = 0 / 1 inside the hook body / 2 inside it holding
+    the lock) of [receiver_prog] when the executed call answers o: the LTS event it shows (None = silent: tests, `continue`)
+    and the next configuration; [rx_abs] maps configurations to the receiver pcs R0..R8, RH, RHL, RErr, REnd, RDone of
+    Appendix B (e.g. pc 9 `n.Unlock()` -> R7 ok; pc 10 `err != nil` -> R8 or REnd false).  Every silent step is a stutter of
+    the abstraction, every visible step is a transition of [step_fn] of thread t (Lock: provided the mutex is free) into the
+    abstraction of the new configuration that leaves the other threads alone. *)
+Theorem C13_receiver_program_refines_lts : forall t c o b e c' s,
+  rx_next t c o b = Some (e, c') -> th s t = TRx (rx_abs c) ->
+  match e with
+  | None => rx_abs c' = rx_abs c
+  | Some ev => (forall u, ev = Lock u -> owner s = None) ->
+      exists s', step_fn s ev = Some s' /\ th s' t = TRx (rx_abs c') /\ (forall u, u <> t -> th s' u = th s u)
+                 /\ owner s' = match ev with Lock _ => Some t | Unlock _ => None | _ => owner s end
+  end.
+Proof. exact receiver_refines. Qed.
+Print Assumptions C13_receiver_program_refines_lts.
+
+(** hence reachability is kept, and I2 is a statement about the program: a message-state node of the receiver program is
+    only ever executed, in a reachable state, by the owner of the node lock *)
+Theorem C13_receiver_program_step_reachable : forall cfg t c o b ev c' s,
+  reachable cfg s -> th s t = TRx (rx_abs c) -> rx_next t c o b = Some (Some ev, c') ->
+  (forall u, ev = Lock u -> owner s = None) ->
+  exists s', step_fn s ev = Some s' /\ reachable cfg s' /\ th s' t = TRx (rx_abs c').
+Proof. exact receiver_step_reachable. Qed.
+Print Assumptions C13_receiver_program_step_reachable.
+
+Theorem C13_receiver_program_access_owns_lock : forall cfg t c o b w c' s,
+  reachable cfg s -> th s t = TRx (rx_abs c) -> rx_next t c o b = Some (Some (Access t w), c') -> owner s = Some t.
+Proof. exact receiver_program_access_owns_lock. Qed.
+Print Assumptions C13_receiver_program_access_owns_lock.
+
+(** the labelled semantics walks the program graph: the pc stays (inside a hook body), ends the function, or follows an edge *)
+Theorem C13_program_steps_follow_graph : forall p interp outs ret_ok ret_ev t c o b e c',
+  lnext p interp outs ret_ok ret_ev t c o b = Some (e, c') ->
+  l_pc c' = l_pc c \/ l_pc c' = List.length p \/
+  exists n, nth_error p (l_pc c) = Some n /\ In (l_pc c') (n_succ n).
+Proof. exact lnext_follows_graph. Qed.
+Print Assumptions C13_program_steps_follow_graph.
+
+(** non-vacuity: the program started at (0, _, 0) abstracts to the receiver's initial pc; one frame with a hook that locks *)
+Example C13_receiver_refinement_nonvacuous :
+  rx_abs (mkL 0 true 0) = R0 /\
+  rx_next 1 (mkL 0 true 0) true false = Some (Some (Recv 1 true), mkL 1 true 0) /\
+  rx_next 1 (mkL 8 true 0) false false = Some (Some (Access 1 (WUnmarshal false)), mkL 9 false 0) /\
+  rx_next 1 (mkL 10 false 0) true false = Some (None, mkL 11 false 0) /\
+  rx_next 1 (mkL 12 true 1) true true = Some (Some (Lock 1), mkL 12 true 2) /\
+  rx_next 1 (mkL 12 true 1) false false = Some (Some (HookRet 1 false), mkL 13 false 0) /\
+  rx_next 1 (mkL 18 true 0) true false = Some (Some (Done 1 true), mkL 19 true 0).
 Proof. vm_compute. repeat split. Qed.
